@@ -19,19 +19,17 @@ Theorem C46_match_table_pattern_is_wildcard_rules :
 Proof. exact match_table_pattern_spec. Qed.
 Print Assumptions C46_match_table_pattern_is_wildcard_rules.
 
-Theorem C46_decision_is_most_specific_wins_partial :
+Theorem C46_decision_is_most_specific_wins :
   forall ps n,
     NoDup (matching ps n true) -> NoDup (matching ps n false) ->
-    (forall p, In p (matching ps n true ++ matching ps n false) -> plain p = true) ->
     d_code (is_ignored ps n) = spec_decision ps n.
-Proof. exact decision_is_spec_partial. Qed.
-Print Assumptions C46_decision_is_most_specific_wins_partial.
+Proof. exact decision_is_spec. Qed.
+Print Assumptions C46_decision_is_most_specific_wins.
 
-Theorem C46_decision_most_specific_refuted :
-  exists ps n, NoDup (matching ps n true) /\ NoDup (matching ps n false) /\
-               spec_decision ps n = 0 /\ d_code (is_ignored ps n) = 1.
-Proof. exact decision_most_specific_refuted. Qed.
-Print Assumptions C46_decision_most_specific_refuted.
+Theorem C46_decision_is_most_specific_wins_primary_key :
+  forall ps n, NoDup (map fst ps) -> d_code (is_ignored ps n) = spec_decision ps n.
+Proof. exact decision_is_spec_pk. Qed.
+Print Assumptions C46_decision_is_most_specific_wins_primary_key.
 
 Theorem C46_clean_removes_exactly_untracked_not_ignored :
   forall ps h s w x dry,
@@ -52,14 +50,12 @@ Theorem C46_stage_all_every_other_change_refuted :
 Proof. exact stage_all_every_other_change_refuted. Qed.
 Print Assumptions C46_stage_all_every_other_change_refuted.
 
-Theorem C46_decision_is_most_specific_wins_partial2 :
-  forall ps n,
-    NoDup (matching ps n true) -> NoDup (matching ps n false) ->
-    (forall t f, In t (matching ps n true) -> In f (matching ps n false) ->
-                 (no_q t || plain f) && (no_q f || plain t) = true) ->
-    d_code (is_ignored ps n) = spec_decision ps n.
-Proof. exact decision_is_spec_partial2. Qed.
-Print Assumptions C46_decision_is_most_specific_wins_partial2.
+Theorem C46_clean_removes_exactly_untracked_not_ignored_primary_key :
+  forall ps h s w x dry,
+    NoDup (map fst ps) -> NoDup (names h) -> NoDup (names s) -> NoDup (names w) ->
+    clean_ok ps x dry (h, s, w) (fst (clean ps (negb x) dry (h, s, w))) (snd (clean ps (negb x) dry (h, s, w))) = true.
+Proof. exact clean_is_spec_pk. Qed.
+Print Assumptions C46_clean_removes_exactly_untracked_not_ignored_primary_key.
 
 Theorem C46_more_specific_sound :
   forall a b, at_least_as_specific_b a b = true -> forallb not_nl a = true ->
